@@ -521,7 +521,13 @@ pub fn fam_check(rng: &mut Rng) -> MPos {
     let w = p.white_to_move;
     let ks = rng.below(64) as u8;
     p.sq[ks as usize] = man(w, b'K');
-    let n = if rng.chance(1, 4) { 2 } else { 1 };
+    // one checker mostly, two often, three to five now and then (valid boards may have any number)
+    let n = match rng.below(16) {
+        0..=3 => 2,
+        4 => 3,
+        5 => 4 + rng.below(2),
+        _ => 1,
+    };
     for _ in 0..n {
         match rng.below(3) {
             0 => {
@@ -1009,5 +1015,30 @@ pub fn fam_odd_marks(rng: &mut Rng) -> MPos {
             }
         }
     }
+    p
+}
+
+/// G3: "checkerboard" positions — 32 men on alternating squares of every rank, which gives the
+/// longest possible FEN placement field (71 characters) and dense, mutually blocking armies.
+pub fn fam_checkerboard(rng: &mut Rng) -> MPos {
+    let mut p = MPos::empty();
+    for r in 0..8u8 {
+        let parity = rng.below(2) as u8;
+        let white = r < 4;
+        for f in 0..8u8 {
+            if f % 2 == parity {
+                let pool: &[u8] = if r == 0 || r == 7 { b"NBRQNB" } else { b"PPPNBRQ" };
+                p.sq[sq(f, r) as usize] = man(white, *rng.pick(pool));
+            }
+        }
+    }
+    // kings replace one man on each back rank
+    for (r, k) in [(0u8, b'K'), (7u8, b'k')] {
+        let spots: Vec<Sq> = (0..8u8).map(|f| sq(f, r)).filter(|&s| p.at(s) != EMPTY).collect();
+        let s = *rng.pick(&spots);
+        p.sq[s as usize] = k;
+    }
+    p.white_to_move = rng.chance(1, 2);
+    random_counters(rng, &mut p);
     p
 }
